@@ -410,6 +410,18 @@ func SetSlice(dest reflect.Value, objects interface{}) error {
 
 	v := EnsurePackValue(objects)
 	if h, ok := v.Interface().(*_refHolder); ok {
+		if h.complete {
+			// a further reference to a list that has been read completely: its value is final,
+			// nobody is going to notify this destination later (an empty list has left no value)
+			if h.value.IsValid() {
+				cv, err := ConvertSliceValueType(destTyp, h.value)
+				if err != nil {
+					return err
+				}
+				SetValue(dest, cv)
+			}
+			return nil
+		}
 		h.add(dest)
 		return nil
 	}
